@@ -105,12 +105,15 @@ func (u *upstream) Serve() {
 	// Stop all clients first. This fails the requests which are still
 	// waiting for an answer, including the one of the slots refresh loop,
 	// a backend which does not answer must not keep us from stopping.
+	// NOTE: No client is created any more once quit is closed. The lock
+	// must not be held while stopping: a client which is handling a
+	// redirection may be waiting for it to create the next client.
 	u.clientsMu.Lock()
 	clients := u.loadClients()
+	u.clientsMu.Unlock()
 	for _, c := range clients {
 		c.Stop()
 	}
-	u.clientsMu.Unlock()
 
 	wg.Wait()
 	close(u.done)
